@@ -1616,6 +1616,9 @@ pub struct OutlineEnumTrace {
     pub len: u32,
     #[serde(default)]
     pub only_bit: Option<u32>,
+    /// restrict to one stuck word (byte offset, value) when replaying
+    #[serde(default)]
+    pub only_word: Option<(u32, u16)>,
 }
 
 pub struct OutlineBitEnum;
@@ -1779,7 +1782,7 @@ impl Engine for OutlineBitEnum {
                 dd[(index as usize - q.len()) % dd.len()]
             }
         };
-        OutlineEnumTrace { image, table, start, len: chunk_len(images()[image].extended) as u32, only_bit: None }
+        OutlineEnumTrace { image, table, start, len: chunk_len(images()[image].extended) as u32, only_bit: None, only_word: None }
     }
     fn execute(&self, t: &mut OutlineEnumTrace, stats: &mut Stats) -> Verdict {
         let img = &images()[t.image];
@@ -1789,11 +1792,36 @@ impl Engine for OutlineBitEnum {
         let payload = payload.as_bytes().to_vec();
         let start = t.start as usize;
         let end = (start + t.len as usize).min(payload.len());
-        let bits: Vec<u32> = match t.only_bit {
-            Some(b) => vec![b],
-            None => ((start * 8) as u32..(end * 8) as u32).collect(),
+        let bits: Vec<u32> = match (t.only_bit, t.only_word) {
+            (Some(b), _) => vec![b],
+            (None, Some(_)) => vec![],
+            (None, None) => ((start * 8) as u32..(end * 8) as u32).collect(),
+        };
+        // every aligned 16-bit word of the chunk stuck at a boundary value (what a single bit flip cannot make
+        // of an arbitrary field: all ones, the sign boundary)
+        let words: Vec<(u32, u16)> = match (t.only_bit, t.only_word) {
+            (_, Some(w)) => vec![w],
+            (Some(_), None) => vec![],
+            (None, None) => ((start + start % 2)..end.saturating_sub(1)).step_by(2).flat_map(|at| [0xFFFFu16, 0x8000, 0x7FFF].into_iter().map(move |v| (at as u32, v))).collect(),
         };
         let mut d = Digest::new();
+        for (at, v) in words {
+            let mut p = payload.clone();
+            let i = at as usize;
+            if i + 2 > p.len() || p[i..i + 2] == v.to_be_bytes() {
+                continue;
+            }
+            p[i..i + 2].copy_from_slice(&v.to_be_bytes());
+            stats.bump("fault.image.table.word_stuck_at_boundary_value");
+            let mut b = write_fonts::FontBuilder::new();
+            b.add_raw(tag, p);
+            b.copy_missing_tables(fr.clone());
+            let image = b.build();
+            t.only_word = Some((at, v));
+            d.u64(focused_draws(&image, &fr, tag, i, img.extended, stats));
+            stats.bump("oracle.C02.total_sweep");
+        }
+        t.only_word = None;
         for bit in bits {
             let mut p = payload.clone();
             let i = bit as usize / 8;
